@@ -27,6 +27,9 @@ func init() {
 			{Name: "create-skips-normal-check", File: "pkg/trait/electricpb/model.go", Old: "\tif mode.Normal {\n\t\t_, ok := m.normalMode()\n\t\tif ok {\n\t\t\treturn nil, ErrNormalModeExists\n\t\t}\n\t}\n\n\tmsg, err := m.modes.Add(", New: "\tmsg, err := m.modes.Add(", Expect: "R19.2"},
 			{Name: "revert-F19-update-skips-normal-check", File: "pkg/trait/electricpb/model.go", Old: "\t\tif normal, ok := m.normalMode(); ok && normal.Id != mode.Id {\n\t\t\treturn nil, ErrNormalModeExists\n\t\t}", New: "\t\t_ = m", Expect: "R19.2"},
 			{Name: "revert-F20-nil-is-notfound", File: "pkg/trait/electricpb/model.go", Old: "\t_, err := m.modes.Delete(id, opts...)\n\tif status.Code(err) == codes.NotFound {\n\t\treturn ErrModeNotFound\n\t}\n\t// a missing mode without an error means the caller allowed the mode to be missing\n\treturn err", New: "\tmsg, err := m.modes.Delete(id, opts...)\n\tif err != nil {\n\t\treturn err\n\t}\n\tif msg == nil {\n\t\treturn ErrModeNotFound\n\t}\n\treturn nil", Expect: "R19.5"},
+			{Name: "clear-shortcut-on-stale-snapshot", File: "pkg/trait/electricpb/model.go", Old: "\tnormal, ok := m.normalMode()\n\tif !ok {\n\t\treturn nil, ErrModeNotFound\n\t}\n\n\treturn m.changeActiveMode(normal.Id)", New: "\tif active := m.activeMode.Get().(*traits.ElectricMode); active.Normal {\n\t\treturn active, nil\n\t}\n\tnormal, ok := m.normalMode()\n\tif !ok {\n\t\treturn nil, ErrModeNotFound\n\t}\n\n\treturn m.changeActiveMode(normal.Id)", Expect: "R19.4"},
+			{Name: "updates-normal-only-when-all-paths-normal", File: "pkg/trait/electricpb/model.go", Old: "\t\tif path == \"normal\" {\n\t\t\treturn true\n\t\t}\n\t}\n\treturn false", New: "\t\tif path != \"normal\" {\n\t\t\treturn false\n\t\t}\n\t}\n\treturn true", Expect: "R19.2"},
+			{Name: "updates-normal-always-true", Silent: true, File: "pkg/trait/electricpb/model.go", Old: "\t\tif path == \"normal\" {\n\t\t\treturn true\n\t\t}\n\t}\n\treturn false", New: "\t\tif path == \"normal\" {\n\t\t\treturn true\n\t\t}\n\t}\n\treturn true"},
 			{Name: "clear-uses-first-mode", File: "pkg/trait/electricpb/model.go", Old: "\tnormal, ok := m.normalMode()\n\tif !ok {\n\t\treturn nil, ErrModeNotFound\n\t}\n\n\treturn m.changeActiveMode(normal.Id)", New: "\tnormal, ok := m.normalMode()\n\tif !ok {\n\t\treturn nil, ErrModeNotFound\n\t}\n\t_ = normal\n\n\treturn m.changeActiveMode(m.activeMode.Get().(*traits.ElectricMode).Id)", Expect: "R19.4"},
 		},
 	})
@@ -193,6 +196,19 @@ func r192(c *an.Ctx) {
 				}
 				if hasNormal {
 					for _, g := range gs {
+						cond := g.If.Cond
+						if u, isNot := cond.(*ssa.UnOp); isNot && u.Op == token.NOT {
+							cond = u.X
+						}
+						if _, _, fld, isF := an.FieldOf(cond); !(isF && fld == "Normal") {
+							// another condition that lets a write skip the check: it must be a sound
+							// "this update does not write the normal field" test
+							if why := writesNormalHelper(cond); why != "" {
+								c.Bad(rule, fmt.Sprintf("%s|the condition that skips the normal-mode check is sound", an.FuncName(fn)), g.If.Pos(), why)
+								continue
+							}
+							c.Ok(rule, fmt.Sprintf("%s|the condition that skips the normal-mode check is sound", an.FuncName(fn)), g.If.Pos(), "mask helper answers false only after comparing every path with \"normal\"")
+						}
 						guardOpp = append(guardOpp, an.CondEdge{If: g.If, Branch: !g.Branch})
 					}
 				}
@@ -334,6 +350,27 @@ func r194(c *an.Ctx) {
 			}
 		}
 		c.Check(ok, rule, "(*pkg/trait/electricpb.Model).ChangeToNormalMode|changes to the id of normalMode()", fn.Pos(), "", "ChangeToNormalMode does not activate the id of the mode normalMode() found (guarded by its ok)")
+		// every return that can report success hands back changeActiveMode's result: there is no way to
+		// succeed without switching to the mode normalMode() found just now
+		okRet := true
+		where := fn.Pos()
+		for _, r := range an.Returns(fn) {
+			for _, v := range an.ValuesAt(r.Results[1]) {
+				if u, isLoad := v.(*ssa.UnOp); isLoad {
+					if _, isG := u.X.(*ssa.Global); isG {
+						continue // a sentinel error
+					}
+				}
+				if ex, isEx := v.(*ssa.Extract); isEx {
+					if call, isCall := ex.Tuple.(*ssa.Call); isCall && strings.HasSuffix(an.CalleeName(call), "electricpb.Model).changeActiveMode") {
+						continue
+					}
+				}
+				okRet = false
+				where = r.Pos()
+			}
+		}
+		c.Check(okRet, rule, "(*pkg/trait/electricpb.Model).ChangeToNormalMode|succeeds only through changeActiveMode(normal id)", where, "", "ChangeToNormalMode can return without an error from changeActiveMode: a shortcut (e.g. `the stored active mode says normal`) keeps a stale active mode after the normal flag moved to another mode, and the new normal mode's start time is never stamped")
 	}
 	// normalMode returns a mode whose Normal is true
 	if fn := mustFunc(c, rule, elecPkg, "Model", "normalMode"); fn != nil {
@@ -484,4 +521,91 @@ func r195(c *an.Ctx) {
 		}
 		c.Check(ok, rule, "(*pkg/trait/electricpb.ModelServer).DeleteMode|allow_missing is forwarded", sf.Pos(), "", "the request's allow_missing does not reach the model")
 	}
+}
+
+// writesNormalHelper validates a condition under which updateMode skips the normal-mode check: a call of a
+// package function over the update mask that may answer false only when no path of the mask is "normal"
+// (nil mask = all fields). Accepted shape: `return false` only after the loop over mask.Paths has finished,
+// every `path == "normal"` hit returns true, a nil mask returns true. "" = sound.
+func writesNormalHelper(cond ssa.Value) string {
+	call, ok := cond.(*ssa.Call)
+	if !ok {
+		return "the check for an existing normal mode is skipped under a condition that is neither the written mode's Normal flag nor a call of a mask helper"
+	}
+	h := call.Call.StaticCallee()
+	if h == nil || len(h.Blocks) == 0 {
+		return "the condition that skips the normal-mode check calls something that cannot be resolved"
+	}
+	var loopHdr *ssa.BasicBlock
+	for _, b := range h.Blocks {
+		if b.Comment == "rangeindex.loop" || b.Comment == "rangeiter.loop" {
+			loopHdr = b
+		}
+	}
+	inLoop := func(b *ssa.BasicBlock) bool {
+		if loopHdr == nil {
+			return false
+		}
+		body := loopHdr.Succs[0]
+		return body.Dominates(b)
+	}
+	for _, r := range an.Returns(h) {
+		for _, v := range an.ValuesAt(r.Results[0]) {
+			b, isC := an.ConstBool(v)
+			if !isC {
+				if cl, isCall := v.(*ssa.Call); isCall && strings.HasSuffix(an.CalleeName(cl), "slices.Contains") {
+					continue
+				}
+				return an.FuncName(h) + " returns a computed verdict of a form this rule does not know"
+			}
+			if b {
+				continue // answering true only ever adds a check
+			}
+			if loopHdr == nil {
+				return an.FuncName(h) + " answers false without looking at the mask's paths"
+			}
+			if inLoop(r.Block()) {
+				return an.FuncName(h) + " answers `does not write normal` from inside the loop over the mask's paths, i.e. before every path has been compared: an update with the mask [title, normal] skips the check for an existing normal mode and a second mode becomes normal (invariant 1)"
+			}
+			// the mask is known non-nil and the loop is over
+			if !loopHdr.Dominates(r.Block()) {
+				return an.FuncName(h) + " answers false on a path that never iterated the mask's paths"
+			}
+		}
+	}
+	// every comparison with "normal" that hits leads to true
+	hit := false
+	bad := ""
+	an.Instrs(h, func(in ssa.Instruction) {
+		iff, ok := in.(*ssa.If)
+		if !ok {
+			return
+		}
+		bo, ok := iff.Cond.(*ssa.BinOp)
+		if !ok || (bo.Op != token.EQL && bo.Op != token.NEQ) {
+			return
+		}
+		k, isK := bo.Y.(*ssa.Const)
+		if !isK || k.Value == nil || k.Value.ExactString() != "\"normal\"" {
+			return
+		}
+		hit = true
+		e := an.CondEdge{If: iff, Branch: bo.Op == token.EQL}
+		okTrue := false
+		for _, r := range an.Returns(h) {
+			if b, isC := an.ConstBool(r.Results[0]); isC && b && an.EdgeGuards(e, r) {
+				okTrue = true
+			}
+		}
+		if !okTrue {
+			bad = an.FuncName(h) + ": a path equal to \"normal\" does not lead to the answer true"
+		}
+	})
+	if bad != "" {
+		return bad
+	}
+	if loopHdr != nil && !hit {
+		return an.FuncName(h) + " never compares a path with \"normal\""
+	}
+	return ""
 }
